@@ -2,6 +2,7 @@
 from __future__ import annotations
 
 import logging
+import os
 
 import observe
 from chartgen import section
@@ -215,6 +216,21 @@ def run(ctx):
                     texts[rec["id"]] = text
                     j += 1
                     ctx.evaluations += 1
+    # the library imported while the application's logging was quiet (root level ERROR / logging.disable(WARNING)), logging
+    # switched on afterwards: fresh interpreters (harness/quiet_import_runner.py)
+    import json
+    import subprocess
+    from common import PY, VERIF, child_env
+    from ctx import MachineryError
+    for mode in ("root-error", "disabled", "default"):
+        pr = subprocess.run([PY, str(VERIF / "harness" / "quiet_import_runner.py"), mode, str(ctx.seed), str(ctx.pick(30, 300))],
+                            capture_output=True, text=True, env=child_env({"VERIF_TMP": os.environ.get("VERIF_TMP", "")}), timeout=600)
+        if pr.returncode != 0 or not pr.stdout.strip():
+            raise MachineryError("quiet-import runner failed: " + pr.stderr[-1500:])
+        for rec in json.loads(pr.stdout.strip().splitlines()[-1]):
+            texts[rec["id"]] = rec.pop("text")
+            recs.append(rec)
+            ctx.evaluations += 1
     by_id = {x["id"]: x for x in recs}
     for rid, p, clause in ctx.validate(recs):
         ctx.violation(clause, {"kind": "dispatch", "record": by_id[rid], "text": texts[rid]}, key=clause + "|" + by_id[rid]["sec"])
